@@ -379,6 +379,13 @@ func c02BidPerts(r *rand.Rand, b0 vfBid, other vfBid) []c02Pert {
 	add("digest-flip", func(b *vfBid) { b.Dig[r.Intn(len(b.Dig))] ^= 1 << uint(r.Intn(8)) })
 	add("digest-truncated", func(b *vfBid) { b.Dig = b.Dig[:31] })
 	add("digest-extended", func(b *vfBid) { b.Dig = append(b.Dig, 0) })
+	rnd := func(n int) []byte { x := make([]byte, n); r.Read(x); return x }
+	add("digest-prepend-1", func(b *vfBid) { b.Dig = append(rnd(1), b.Dig...) })
+	add("digest-prepend-12", func(b *vfBid) { b.Dig = append(rnd(12), b.Dig...) })
+	add("digest-prepend-32", func(b *vfBid) { b.Dig = append(rnd(32), b.Dig...) })
+	add("digest-prepend-zero", func(b *vfBid) { b.Dig = append([]byte{0}, b.Dig...) })
+	add("digest-prepend-zeros", func(b *vfBid) { b.Dig = append(make([]byte, 32), b.Dig...) })
+	add("digest-strip-first", func(b *vfBid) { b.Dig = b.Dig[1:] })
 	add("digest-nil", func(b *vfBid) { b.Dig = nil })
 	add("digest-empty", func(b *vfBid) { b.Dig = []byte{} })
 	add("digest-of-other-bid", func(b *vfBid) { b.Dig = c02Clone(other.Dig) })
@@ -494,7 +501,7 @@ func TestVerifC02(t *testing.T) {
 		pk := vfKey(providerKey)
 		for j, p := range c02BidPerts(r, b0, other) {
 			p := p
-			if !(e.Tier == "thorough" || (j+i)%3 == 1) {
+			if !(e.Tier == "thorough" || (j+i)%3 == 1 || strings.HasPrefix(p.Class, "digest-prepend")) {
 				continue
 			}
 			m := c02Msg{Bid: &p.Bid}
@@ -519,6 +526,58 @@ func TestVerifC02(t *testing.T) {
 		outer("digest-flip", func(m *c02Msg) { m.Dig[r.Intn(32)] ^= 0x80 })
 		outer("digest-nil", func(m *c02Msg) { m.Dig = nil })
 		outer("digest-empty", func(m *c02Msg) { m.Dig = []byte{} })
+		outer("digest-prepend-1", func(m *c02Msg) { m.Dig = append(rb(1), m.Dig...) })
+		outer("digest-prepend-12", func(m *c02Msg) { m.Dig = append(rb(12), m.Dig...) })
+		outer("digest-prepend-32", func(m *c02Msg) { m.Dig = append(rb(32), m.Dig...) })
+		outer("digest-prepend-zero", func(m *c02Msg) { m.Dig = append([]byte{0}, m.Dig...) })
+		outer("digest-append-zero", func(m *c02Msg) { m.Dig = append(m.Dig, 0) })
+		outer("digest-truncated", func(m *c02Msg) { m.Dig = m.Dig[:31] })
+		outer("digest-strip-first", func(m *c02Msg) { m.Dig = m.Dig[1:] })
+		// messages whose true digest starts with a zero byte (found by varying the block number),
+		// presented with that byte dropped
+		bsig := NewSigner(&vfKeySigner{key: vfKey(bidderKey)})
+		var bz, bzc *preconfpb.Bid
+		var cz *preconfpb.PreConfirmation
+		for bn := 1 + r.Int63()>>20; bz == nil || cz == nil; bn++ {
+			nb, err := bsig.ConstructSignedBid(string(b0.Tx), string(b0.Amt), bn, b0.Ds, b0.De)
+			if err != nil {
+				t.Fatal(err)
+			}
+			if bz == nil && nb.Digest[0] == 0 {
+				bz = nb
+			}
+			if cz == nil {
+				if h, err := GetPreConfirmationHash(&preconfpb.PreConfirmation{Bid: nb}); err == nil && h[0] == 0 {
+					bzc = nb
+					if cz, err = prov.ConstructPreConfirmation(bzc); err != nil {
+						t.Fatal(err)
+					}
+				}
+			}
+		}
+		vz := vfBidOf(bz)
+		mz := c02Msg{Bid: &vz}
+		run("bid:digest-leading-zero-genuine", c02In{Kind: 1, Cur: mz, Orig: &mz})
+		sz := vz
+		sz.Dig = vz.Dig[1:]
+		run("bid:digest-leading-zero-stripped", c02In{Kind: 1, Cur: c02Msg{Bid: &sz}, Orig: &mz})
+		run("session:bid-digest-leading-zero-stripped", c02In{Kind: 1, Cur: c02Msg{Bid: &sz}, Orig: &mz, Before: []c02Step{{Kind: 1, Msg: mz}}})
+		mcz := c02MsgOf(cz)
+		run("commitment:digest-leading-zero-genuine", c02In{Kind: 2, Cur: mcz, Orig: &mcz})
+		run("commitment:digest-leading-zero-stripped", c02In{Kind: 2, Cur: c02Msg{Bid: mcz.Bid, Dig: mcz.Dig[1:], Sig: mcz.Sig}, Orig: &mcz})
+		// embedded bid with the stripped digest, commitment signed correctly over it
+		{
+			m := c02Msg{Bid: &sz}
+			if h, err := GetPreConfirmationHash(m.pb()); err == nil {
+				sg, err := crypto.Sign(h, pk)
+				if err != nil {
+					t.Fatal(err)
+				}
+				sg[64] += 27
+				m.Dig, m.Sig = h, sg
+				run("commitment:signed-over-bid-digest-leading-zero-stripped", c02In{Kind: 2, Cur: m, Orig: &c0})
+			}
+		}
 		outer("digest-of-other", func(m *c02Msg) { m.Dig = co.Digest })
 		outer("digest-and-signature-of-other", func(m *c02Msg) { m.Dig, m.Sig = co.Digest, co.Signature })
 		outer("whole-other-bid", func(m *c02Msg) { m.Bid = &other })
@@ -613,6 +672,9 @@ func TestVerifC02(t *testing.T) {
 		a := vfBid{Tx: []byte(vfRandTx(r)), Amt: []byte(new(big.Int).SetUint64(r.Uint64()).String()), Bn: 1 + r.Int63(), Ds: r.Int63(), De: r.Int63()}
 		if r.Intn(4) == 0 {
 			a.Amt = []byte(vfRandAmount(r))
+		}
+		if sp := vfAmountSpellings(); i >= 7 && i-7 < len(sp) {
+			a.Amt = []byte(sp[i-7])
 		}
 		run("own-bid", c02In{Kind: 3, Cur: c02Msg{Bid: &a}, Key: key, Mode: mode})
 		vb := mkBid(vfRandKey(r))
